@@ -82,7 +82,7 @@ def gen_key_case(rng, typ, key):
         vs = [rng.choice(VALUES) for _ in range(rng.randint(1, 3))]
         return ["%s=%s" % (key, spell_whole(rng, v)) for v in vs], [x for v in vs for x in (opt, v)]
     if kind == "strv":
-        ws = [rng.choice(["w1", "k=v", "a:b", "é", "x y", "UP"]) for _ in range(rng.randint(1, 3))]
+        ws = [rng.choice(["w1", "k=v", "a:b", "é", "x y", "UP", "p=/var/log/a\\tb", "t=a\\\\b", "n\\x41"]) for _ in range(rng.randint(1, 3))]      # plain lists keep backslashes literally
         return ["%s=%s" % (key, " ".join('"%s"' % w if " " in w else w for w in ws))], [x for w in ws for x in (opt, w)]
     if kind == "args":
         ws = [rng.choice(VALUES) for _ in range(rng.randint(1, 3))]
